@@ -130,6 +130,13 @@ func (x *Exec) stGet(s *State, name, sort string) string {
 
 func (x *Exec) stSet(s *State, name, sort, term string) {
 	x.stSorts[name] = sort
+	if x.con != nil && x.con.Opts["guard"] != "" && x.disc == nil {
+		g, ok := s.ghost["guard"]
+		if !ok {
+			g = "false"
+		}
+		x.oblige(s, "guard", "write_after_"+x.con.Opts["guard"]+"."+name, g, nil)
+	}
 	s.st[name] = x.name(s, "st_"+name, sort, term)
 	if x.disc != nil {
 		x.disc.state[name] = true
